@@ -35,6 +35,7 @@ type GenCfg struct {
 	EmptyTypes  bool // embedded objects may lack type (and id)
 	Negatives   bool // negative numbers / durations
 	MultiLang   bool // more than one language value
+	RepeatLang  bool // multi-language values may repeat a language reference (what a JSON array of strings decodes to)
 	SubSecondDur bool
 	Only        map[string]bool // when set: only these fields are ever generated
 	Force       map[string]bool // fields generated with probability ForcePct (default 100) when the type has them
@@ -71,6 +72,18 @@ func (g *GenCfg) genNLV(r *RNG) []interface{} {
 	}
 	for i := 0; i < n; i++ {
 		out = append(out, []interface{}{langTags[perm[i]], r.Pick(texts)})
+	}
+	if g.RepeatLang && r.Chance(30) {
+		tag := "-"
+		if r.Bool() {
+			tag = langTags[perm[0]]
+		}
+		for i := 0; i < n; i++ {
+			if i == 0 || r.Bool() {
+				out[i].([]interface{})[0] = tag
+			}
+		}
+		out[n-1].([]interface{})[0] = tag
 	}
 	return out
 }
